@@ -648,6 +648,10 @@ func genWrite(r *rng, present map[string]bool) *sOp {
 
 	o.Payload = fmt.Sprintf("p%d", r.intn(9))
 
+	if o.Op == "update" && r.chance(1, 3) {
+		o.ViaGet = true
+	}
+
 	if r.chance(1, 2) {
 		o.Labels = map[string]string{"l0": "v" + fmt.Sprint(r.intn(3))}
 		if r.chance(1, 3) {
